@@ -303,6 +303,11 @@ func visitInstr(fr *frame, instr ssa.Instruction) continuation {
 
 	case *ssa.MakeSlice:
 		n := asInt64(fr.get(instr.Cap))
+		if l := asInt64(fr.get(instr.Len)); l < 0 || l > 1<<40 {
+			panic(runtimePanic("makeslice: len out of range"))
+		} else if n < l || n > 1<<40 {
+			panic(runtimePanic("makeslice: cap out of range"))
+		}
 		slice := make([]value, n)
 		tElt := instr.Type().Underlying().(*types.Slice).Elem()
 		for i := range slice {
